@@ -248,8 +248,8 @@ func (n *nodeEnv) proxy(c proxyCfg) *lhttp.ProxyServer {
 	p.Target = n.stub.target()
 	p.DBName = c.DB
 	p.Addr = "127.0.0.1:0"
-	p.Passthroughs = []*regexp.Regexp{mustMatch("/pt/*"), mustMatch("/both/*")}
-	p.AlwaysForward = []*regexp.Regexp{mustMatch("/af/*"), mustMatch("/both/*")}
+	p.Passthroughs = []*regexp.Regexp{mustMatch("/pt/*"), mustMatch("/both/*"), mustMatch("*.js"), mustMatch("/pt.v1/*"), mustMatch("/pt+x/*")}
+	p.AlwaysForward = []*regexp.Regexp{mustMatch("/af/*"), mustMatch("/both/*"), mustMatch("/af.v1/*")}
 	switch c.Paths {
 	case "hpt":
 		p.Passthroughs = append(p.Passthroughs, mustMatch("/litefs/*"))
